@@ -3,7 +3,7 @@
     Model: AnalysisDefs.v (faithful transcription of the classification core of src/analyser.cpp);
     executable specification: AnalysisSpec.v (the same predicate is evaluated on the real AnalyserModel). *)
 From Coq Require Import List Bool Arith Permutation.
-From LC Require Import AnalysisDefs AnalysisSpec AnalysisProofs AnalysisWfProofs AnalysisOwnProofs AnalysisRenameProofs AnalysisConfluenceProofs AnalysisDefinerProofs AnalysisDepProofs AnalysisTopoProofs AnalysisWitness AnalysisOrderWitness.
+From LC Require Import AnalysisDefs AnalysisSpec AnalysisProofs AnalysisWfProofs AnalysisOwnProofs AnalysisRenameProofs AnalysisConfluenceProofs AnalysisDefinerProofs AnalysisDepProofs AnalysisTopoProofs AnalysisEqVarsProofs AnalysisWitness AnalysisOrderWitness.
 Import ListNotations.
 
 (** ** Termination of the do/while over mInternalEquations *)
@@ -98,6 +98,27 @@ Theorem C05_result_wf_one_definer : forall s r,
   states_have_odes s -> nla_index_consistent r = true -> wf_definers r = true.
 Proof. exact AnalysisDefinerProofs.result_wf_definers. Qed.
 Print Assumptions C05_result_wf_one_definer.
+
+(** Clause 31 (W3b), for EVERY input (no hypothesis: invalid results have no equations): in the result of the
+    analysis the positions of the equations are distinct; every equation lists at least one variable; each variable
+    it lists is a variable of the result whose equations() contains the equation; an equation that is not of type
+    NLA has no NLA system index (the index is None until the grouping, which gives one to NLA equations only). *)
+Theorem C05_result_wf_equation_vars : forall s r, analyse s = Done r -> wf_equation_vars r = true.
+Proof. exact AnalysisEqVarsProofs.result_wf_equation_vars_31. Qed.
+Print Assumptions C05_result_wf_equation_vars.
+
+(** ... and vice versa: every equation of the result that a variable lists in equations() lists that variable
+    (vars_list_back r := forall a j e, In a (all_avars r) -> In j (av_eqs a) -> find_aeq r j = Some e ->
+    In (av_var a) (ae_vars e)).  A constant lists its dummy equation, which is not an equation of the result. *)
+Theorem C05_result_variables_listed_back : forall s r, analyse s = Done r -> vars_list_back r.
+Proof. exact AnalysisEqVarsProofs.result_vars_list_back. Qed.
+Print Assumptions C05_result_variables_listed_back.
+
+(** non-vacuity of the two: the two-component ODE model has a valid result with at least two equations, whose first
+    variable lists an equation of the result, which lists it back. *)
+Example C05_equation_vars_nonvacuous : lists_back_sample good_sys = true.
+Proof. exact AnalysisEqVarsProofs.eqvars_nonvacuous. Qed.
+Print Assumptions C05_equation_vars_nonvacuous.
 
 (** "Each equation depends on the equations computing the non-constant variables it reads" is FALSE as well: the
     dependency is lost when the variable read is later re-targeted to another component. *)
